@@ -102,7 +102,7 @@ func TestVerifC15Head(t *testing.T) {
 	}
 	var plans []plan
 	if r.Quick() {
-		plans = []plan{{"small", 3}, {"medium", 2}, {"small+cp", 3}, {"small+dup", 3}, {"medium+dup", 2}, {"small+md", 2}}
+		plans = []plan{{"small", 3}, {"medium", 2}, {"small+cp", 2}, {"small+dup", 2}, {"medium+dup", 2}, {"small+md", 2}}
 	} else {
 		plans = []plan{{"small", 5}, {"medium", 3}, {"small+cp", 4}, {"small+dup", 4}, {"medium+cp", 3}, {"medium+dup", 3}, {"small+md", 4}, {"medium+md", 2}}
 	}
